@@ -30,6 +30,8 @@ RECURSIVE BoxSeq(_, _)
 BoxSeq(shape, d) == IF d > Len(shape) THEN {<<>>}
                     ELSE {<<i>> \o t : i \in 0..(shape[d] - 1), t \in BoxSeq(shape, d + 1)}
 Box(shape) == BoxSeq(shape, 1)
+RECURSIVE Box0(_, _, _)
+Box0(nd, lo, hi) == IF nd = 0 THEN {<<>>} ELSE {<<i>> \o t : i \in lo..hi, t \in Box0(nd - 1, lo, hi)}
 
 RECURSIVE Prod(_, _)
 Prod(s, k) == IF k > Len(s) THEN 1 ELSE s[k] * Prod(s, k + 1)
